@@ -1,0 +1,6 @@
+//go:build verif
+
+package geyser
+
+// C40JavaCompatibleUsername exposes javaCompatibleUsername to the verification harness (property C40).
+func C40JavaCompatibleUsername(name string) string { return javaCompatibleUsername(name) }
